@@ -104,6 +104,7 @@ def run(ctx):
         wit0 = dict(n_models=n_m, n_ap=n_ap, n_wav=n_w, names=names, table_order=order, desc=desc, gz=gz, length_subdir=lsub,
                     cube_desc=cdesc, f32=f32, sed_wav=truth.wav)
         got = {}
+        edge_tol = {}
         for style, d in (('v1', d1), ('v2', d2)):
             mm = bool(rng.random() < 0.5)
             try:
@@ -139,12 +140,17 @@ def run(ctx):
                     ctx.violation('file-shape:' + style, 'flux column has the wrong shape', dict(wit, shape=g['flux'].shape))
                     continue
                 tolf = rt * np.abs(ref_f[rows]) + (1e-12 if not f32 else 1e-7) * np.sum(np.abs(truth.flux[rows][:, :, ::-1] * R), axis=2)
+                tole = rt * np.abs(ref_e[rows]) + 1e-300
+                if f32:
+                    ef, ee = convcheck.float32_edge_tolerance(truth, flt)
+                    tolf, tole = tolf + ef[rows], tole + ee[rows]
+                edge_tol[(style, flt.name)] = (tolf, tole, rows)
                 if np.any(np.abs(g['flux'] - ref_f[rows]) > tolf):
                     # is it a relabelling? (does some other row match)
                     relabel = any(np.all(np.abs(g['flux'][0] - ref_f[j]) <= tolf[0]) for j in range(n_m) if j != rows[0])
                     ctx.violation('row-holds-other-model:' + style if relabel else 'row-flux-wrong:' + style,
                                   'the row labelled X does not hold the flux computed from SED X', dict(wit, row0=g['names'][0], got=g['flux'][0], expected=ref_f[rows][0]))
-                if np.any(np.abs(g['err'] - ref_e[rows]) > rt * np.abs(ref_e[rows]) + 1e-300):
+                if np.any(np.abs(g['err'] - ref_e[rows]) > tole):
                     ctx.violation('row-error-wrong:' + style, 'the row labelled X does not hold the error computed from SED X',
                                   dict(wit, got=g['err'][0], expected=ref_e[rows][0]))
                 if g['filtwav'] is None or abs(g['filtwav'] / flt.central_wavelength.to(u.micron).value - 1) > 1e-12:
@@ -164,7 +170,17 @@ def run(ctx):
             rows = [ra[n] for n in b['names']] if sorted(a['names']) == sorted(b['names']) else None
             if rows is None:
                 continue
-            if not O.close(a['flux'][rows], b['flux'], rt, 1e-300) or not O.close(a['err'][rows], b['err'], rt, 1e-300):
+            # both were compared with their own reference above; the twins may differ by the sum of those tolerances
+            # (float32 storage: the per-file format stores frequencies in float32, the cube derives them from wavelengths)
+            tfa, tea, ra = edge_tol.get(('v1', flt.name), (0, 0, None))
+            tfb, teb, rb = edge_tol.get(('v2', flt.name), (0, 0, None))
+            if ra is None or rb is None:
+                continue
+            inv_a = {r_: i_ for i_, r_ in enumerate(ra)}
+            perm = [inv_a[r_] for r_ in rb]
+            tf = np.asarray(tfa)[perm] + np.asarray(tfb)
+            te = np.asarray(tea)[perm] + np.asarray(teb)
+            if np.any(np.abs(a['flux'][rows] - b['flux']) > tf) or np.any(np.abs(a['err'][rows] - b['err']) > te):
                 ctx.violation('twin-formats-differ', 'per-file and cube packages built from the same SEDs give different fluxes/errors',
                               dict(wit0, filter=flt.name, v1=a['flux'][rows][0], v2=b['flux'][0], v1_err=a['err'][rows][0], v2_err=b['err'][0]))
 
